@@ -39,7 +39,7 @@ inline(
 
 
 # ---------------------------------------------------------------------------------------------- Literal
-@contract("prov.model.Literal.__init__", props=["C04", "C05"])
+@contract("prov.model.Literal.__init__", props=["C04", "C05", "C01", "C02"])
 def Literal_init(value: "Val", datatype: "Opt[QN]" = None, langtag: "Opt[str]" = None) -> "Lit":
     ensures("value-is-text", result.value == py_str(value))
     ensures("langtag-kept", same(result.langtag, langtag))
